@@ -8,14 +8,14 @@ CHECKS = {
     "C03": dict(engine="schedx", category="model_checking", design_ref="§2 C03",
                 text="Explicit-state BFS over every interleaving of suggest/report/complete events of the real "
                      "HyperbandScheduler (stopping, rush_stopping) for enumerated rung systems, bracket layouts, modes and "
-                     "metric-rank permutations, against a lock-step reference of the documented quantile rule.",
+                     "metric-rank permutations, against a lock-step reference of the documented quantile rule. Plus: rung levels of the real scheduler against the documented arithmetic on a finite lattice of (grace period, reduction factor incl. non-integer, increment, max_t); a re-report event (a job reports a level twice) and six-trial RUSH worlds.",
                 note="Bounded: W<=3 workers, T<=4 trials, listed rung systems; metric values from a fixed table alphabet; "
                      "near ties accepted both ways as the property states.",
                 technique="explicit-state model checking of the implementation (BFS over event histories, digest dedup, reference-model oracle)"),
     "C04": dict(engine="schedx", category="model_checking", design_ref="§2 C04",
                 text="Explicit-state BFS over every interleaving of suggest/report/complete events of the real "
                      "HyperbandScheduler (promotion, pasha, cost_promotion, rush_promotion) against a lock-step reference of the "
-                     "promotion rule (top-down scan, quantile / cumulative-cost eligibility, best unpromoted, exact milestone).",
+                     "promotion rule (top-down scan, quantile / cumulative-cost eligibility, best unpromoted, exact milestone). Plus: every table of a family of criss-crossing learning curves on the long single-worker history (levels 1,3,9) for PASHA and plain promotion; front-/back-loaded cost curves for cost-aware promotion.",
                 note="Bounded: W<=3, T<=4, listed rung systems, brackets<=2; PASHA cap read from the implementation and checked for "
                      "monotonicity only; RUSH thresholds with >0 candidates not modelled.",
                 technique="explicit-state model checking of the implementation (BFS over event histories, digest dedup, reference-model oracle)"),
@@ -39,7 +39,7 @@ CHECKS = {
                      "every batching of output per poll, completion lag, output written between a pause/stop decision and the kill, "
                      "merge order; schedulers = a decision-script scheduler replaying every word over {CONTINUE,PAUSE,STOP} up to the "
                      "bound, and the shipped stopping / pause-resume schedulers; oracle = ground-truth emission list per run vs "
-                     "on_trial_result calls and results-log rows.",
+                     "on_trial_result calls and results-log rows. Plus a BFS over the backend API driven directly (start, poll of any subset of paused plus all live trials, pause, resume, stop) on the real TrialBackend.fetch_status_results, and, through the real LocalBackend file layer, jobs that finish between the backend's reads of process status and log.",
                 note="Bounded: k<=1 (quick) / k<=2 (thorough), W=2, 3-4 trials, 3-4 levels, decision words <=3 (quick) / <=4 (thorough); "
                      "file layer of LocalBackend replaced by in-memory append-only output; simulator delivery is checked under C10.",
                 technique="stateless model checking of the implementation (deviation-bounded enumeration of environment answers, ground-truth differential oracle)"),
@@ -76,7 +76,7 @@ CHECKS = {
     "C17": dict(engine="tunerx", category="model_checking", design_ref="§2 C17",
                 text="Stateless deviation-bounded exploration of the real Tuner.run + StoreResultsCallback for scheduler x mode x metric "
                      "value alphabet x store interval: rows vs delivered results, CSV round trip, best configuration (tuner and loaded "
-                     "experiment), per-trial and overall statistics recomputed from what the backend handed to the loop.",
+                     "experiment), per-trial and overall statistics recomputed from what the backend handed to the loop. The periodic-store clock (whole seconds of datetime.now in RegularCallback) is owned by the harness; backend-stamped tuner times; derived totals (user time, cost) against per-trial maxima.",
                 note="Bounded: k<=1 (quick) / k<=2 (thorough), W<=2, 4 trials, 3 levels, a 12-value alphabet for extra metrics.",
                 technique="stateless model checking of the implementation (deviation-bounded enumeration of environment answers, recomputation oracle)"),
     "C07": dict(engine="enumx", category="exploration", design_ref="§2 C07",
@@ -99,7 +99,7 @@ CHECKS = {
                 text="Twin exploration: every event history (BFS, dedup on the pair of states) of the stopping/promotion/synchronous "
                      "Hyperband worlds and of PBT, DEHB, median rule, MOASHA, regularised evolution, FIFO, RUSH and cost-aware "
                      "schedulers is executed on (mode min, f) and (mode max, -f) and every suggestion and decision compared; Tuner-level "
-                     "twins compare scheduler-call traces, status counters and the reported best configuration.",
+                     "twins compare scheduler-call traces, status counters and the reported best configuration. Plus: table enumeration (criss-crossing curves) on the long single-worker history for PASHA / promotion, PBT populations 4 and 6, MOASHA tuner-level twins with the best configuration per metric.",
                 note="Bounded as C03-C05 (W<=3, T<=5, listed rung/bracket systems); near-tie branches pruned and counted as the property allows.",
                 technique="explicit-state model checking of a product (twin) system: BFS over joint event histories with an equality oracle"),
     "C11": dict(engine="schedx", category="model_checking", design_ref="§2 C11",
@@ -107,7 +107,7 @@ CHECKS = {
                      "before every call to the second both global generators are re-seeded and consumed and an independent third scheduler "
                      "object makes a call; outputs must be identical (bracket sampling left to the scheduler's own generator here). The "
                      "explorations' observation traces and the result tables of simulated experiments are recomputed in two fresh processes "
-                     "with different PYTHONHASHSEED and compared.",
+                     "with different PYTHONHASHSEED and compared. Twins and the unrelated instance are built from the same argument objects, in the order A / unrelated / B; a first-instances scenario runs at the start of each fresh child process.",
                 note="Bounded as C03-C05 plus PBT/DEHB/median/REA/FIFO/GP(random phase); MOASHA takes no random_seed (outside the quantifier); "
                      "GP searchers with a fitted surrogate only as fresh-process twins.",
                 technique="explicit-state model checking of a product (twin) system under adversarial global-RNG perturbation, plus fresh-process differential replay"),
@@ -124,7 +124,7 @@ CHECKS = {
                 text="Bounded-exhaustive: every report/noise stream over finite alphabets (17 payloads, 12 noise items, 17 reject/either "
                      "items, 27 wall-clock patterns; <=3 reports, <=4 over 4 payloads; every placement of noise before/between/after, same "
                      "line where unterminated) is pushed through the real Reporter -> file -> LocalBackend.stdout -> retrieve path and "
-                     "compared with an independent JSON-normal form.",
+                     "compared with an independent JSON-normal form. Plus a two-reads family: the same backend object reads the append-only log after every cut inside / between lines and again when complete.",
                 note="Input-space enumeration, not a protocol state graph. Says nothing about payloads, noise or clocks outside the alphabets, "
                      "about half-written lines seen by a poll, or about other writers on the same stream. Non-decreasing time stamps are "
                      "demanded only under a non-decreasing wall clock.",
